@@ -152,6 +152,15 @@ Theorem C16_connectivity_bit_spec :
 Proof. exact C16_connectivity_bit_spec_proof. Qed.
 Print Assumptions C16_connectivity_bit_spec.
 
+(* which slot: the key the control plane writes (constants extracted from control/connectivity.go) is the
+   slot the kernel reads, outbound * 6 + domain * 2 + ipversion, for every outbound id; distinct
+   (outbound, type) pairs never share a slot *)
+Theorem C16_slot_layout :
+  (forall o d, conn_key o d = spec_slot o d)
+  /\ (forall o d o' d', spec_slot o d = spec_slot o' d' -> o = o' /\ d = d').
+Proof. exact (conj C16_slot_layout_proof C16_slot_injective_proof). Qed.
+Print Assumptions C16_slot_layout.
+
 (* ---- reload ------------------------------------------------------------------------------------------ *)
 Theorem C16_reload_handover_partial :
   forall cfg h l,
